@@ -4,6 +4,16 @@ import UrcuVerif.Src.RegLocal
 import UrcuVerif.Src.ReadQsbrRefine
 /-!
 # Generated source IR of `rcu_register_thread` / `rcu_unregister_thread` (memb, qsbr) ⊑ local projection of L2
+
+Abstraction `absEvP` (protocol accesses, by name AND arguments): `pthread_self()` ↦ `self`; `mutex_lock / mutex_unlock
+(&rcu_registry_lock)` ↦ `lock` / `unlock`; `cds_list_add(&reader.node, &registry)` ↦ `listAdd` (L2's `reg`);
+`cds_list_del(&reader.node)` ↦ `listDel` (L2's `unreg`); `membarrier`, `errno`, `urcu_die` (from `rcu_init`) ↦ `initEv`; the
+same calls with other arguments ↦ `bad` (never accepted).  Everything else goes to the inner abstraction `iabs` (memb: rejects
+everything; qsbr: `ReadQsbr.absEvQ`, accepted only at pc `idle`).  `absRunR` abstracts event by event (the inner abstraction
+looks at the current local state) and runs `rrun`; `absRunR_rrun`: the labels it returns are a run of the local automaton.
+Side conditions: see `Props/SrcReg.lean`.  memb `register` is proved for `init_done ≠ 0` (constructor ran: `rcu_init()` returns
+at once); the first-call path of `rcu_init` (events `initEv` under the lock) is accepted by the automaton but its refinement
+theorem is not proved.
 -/
 set_option maxRecDepth 8192
 set_option linter.unusedSimpArgs false
